@@ -10,7 +10,11 @@ THEOREMS = {
     'C04': ['C01_getter_exact', 'C02_setter_exact', 'C01_bit_weights', 'C02_readback', 'C02_frame'],
     'C05': ['C01_getter_exact', 'C02_setter_exact'],
     'C06': ['C06_raw_value_exact', 'C06_new_with_raw_value_exact'],
+    'C07': ['C07_new_returns_the_variant_with_that_discriminant', 'C07_err_when_no_variant', 'C07_raw_then_new',
+            'C07_new_then_raw', 'C07_never_panics', 'C10_no_variant_is_unrepresentable'],
     'C08': ['C01_getter_exact', 'C02_setter_exact'],
+    'C09': ['C09_accept_iff_valid', 'C09_field_accept_iff_valid'],
+    'C10': ['C10_enum_accept_iff_valid', 'C10_exhaustive_claims_are_sound', 'C10_no_variant_is_unrepresentable'],
     'C11': ['C02_setter_exact', 'C06_raw_value_exact', 'C06_new_with_raw_value_exact'],
     'C12': ['C02_setter_exact'],
     'C16': ['C16_seval_total_profile_independent', 'C16_checked_ok_then_unchecked_same', 'C01_getter_exact',
